@@ -637,6 +637,13 @@ func registerStd() {
 		out.E = append(out.E, m.mkStr(b[start:]))
 		return Slice{A: out, Len: len(out.E), Cap: len(out.E)}
 	}
+	I["strings.Fields"] = func(m *Machine, fr *frame, args []Value) Value {
+		s, ok := strArg(args[0])
+		if !ok {
+			m.unsupported("strings.Fields on a symbolic string")
+		}
+		return m.strSliceVal(strings.Fields(s))
+	}
 	I["strings.HasPrefix"] = func(m *Machine, fr *frame, args []Value) Value {
 		p, ok := strArg(args[1])
 		if !ok {
@@ -1045,7 +1052,20 @@ func registerStd() {
 		if !ok {
 			return Tuple{Slice{}, m.newError("open " + name + ": no such file")}
 		}
-		return Tuple{m.bytesToSlice(append([]*smt.Term{}, b...)), Iface{}}
+		// os.ReadFile returns a slice whose capacity exceeds its length (size+1,
+		// at least 512): reslicing a little beyond len does not panic in the
+		// real program, it silently reads zero bytes
+		capN := len(b) + 1
+		if capN < 512 {
+			capN = 512
+		}
+		all := append([]*smt.Term{}, b...)
+		for len(all) < capN {
+			all = append(all, m.b8(0))
+		}
+		sl := m.bytesToSlice(all)
+		sl.Len = len(b)
+		return Tuple{sl, Iface{}}
 	}
 	// os.OpenFile / (*os.File).Write: a file object with a name and a write
 	// offset over the in-memory file table. Without O_TRUNC the existing
